@@ -20,9 +20,9 @@ for p, mods, corr in (
     ("C01", ["Vet.Props.Resolve"], ["corr.wire", "corr.depgraph", "corr.mapper", "corr.requirements", "corr.auditgraph", "corr.search", "corr.resolve"]),
     ("C02", ["Vet.Props.Resolve"], ["corr.wire", "corr.depgraph", "corr.mapper", "corr.requirements", "corr.auditgraph", "corr.search", "corr.resolve"]),
     ("C03", ["Vet.Props.C03"], ["corr.wire", "corr.depgraph", "corr.mapper", "corr.requirements"]),
-    ("C04", ["Vet.Props.C04", "Vet.Props.Build"], ["corr.wire", "corr.mapper", "corr.auditgraph", "corr.resolve"]),
+    ("C04", ["Vet.Props.C04", "Vet.Props.Build", "Vet.Props.C04Keep"], ["corr.wire", "corr.mapper", "corr.auditgraph", "corr.resolve", "corr.update"]),
     ("C06", ["Vet.Props.Build"], ["corr.wire", "corr.mapper", "corr.auditgraph"]),
-    ("C12", ["Vet.Props.Resolve", "Vet.Props.C12Prune"], ["corr.wire", "corr.mapper", "corr.auditgraph", "corr.search", "corr.resolve"]),
+    ("C12", ["Vet.Props.Resolve", "Vet.Props.C12Prune"], ["corr.wire", "corr.mapper", "corr.auditgraph", "corr.search", "corr.resolve", "corr.update"]),
 ):
     PROPS[p] = {"lean_modules": mods, "corr": corr, "trusted": CORE_TRUST, "assumptions": CORE_ASSUME,
                 "explanation": "Theorems about the model of src/resolver.rs; correspondence of DepGraph::new, resolve_requirements, AuditGraph::build (edge dump), search (three modes) and resolve with the model on generated worlds; specification-level oracles (demand fixpoint, record-level reachability, conflict test) evaluated on the real resolver's output."}
